@@ -159,7 +159,10 @@ func (tb *ATable) RegisterPropertyCallback(
 		*cbListPtr = make([]PropertyCallback, 0, 10)
 	}
 
-	*cbListPtr = append(*cbListPtr, theNewCallback)
+	// Never append in place: Cells are copied by value, so a copy of the owner
+	// may share this list's backing array and its spare capacity.
+	list := *cbListPtr
+	*cbListPtr = append(list[:len(list):len(list)], theNewCallback)
 	return nil
 }
 
